@@ -59,11 +59,13 @@ class TlcResult:
         self.timeout = False
         self.rc = None
         self.trace = []              # raw counterexample text (lines)
+        self.tagged = {}             # other tagged JSON lines printed by the spec, e.g. "BAD[...]"
 
 
 _RE_STATS = re.compile(r"(\d+) states generated, (\d+) distinct states found")
 _RE_DEPTH = re.compile(r"The depth of the complete state graph search is (\d+)")
 _RE_COV = re.compile(r"^<(\w+) line \d+, col \d+ to line \d+, col \d+ of module (\w+)>: (\d+):(\d+)")
+_RE_TAG = re.compile(r'^"([A-Z]{2,12})[\[{]')
 _RE_SIMSTAT = re.compile(r"The number of states generated: (\d+)")
 
 
@@ -77,7 +79,7 @@ def run_tlc(spec_dir, module, cfg, workers=8, simulate=None, depth=None, seed=No
     """
     res = TlcResult()
     meta = tempfile.mkdtemp(prefix="tlcmeta-", dir=os.environ.get("VERIF_WORK", "/verif/work"))
-    jopts = ["-XX:+UseParallelGC", "-Xmx" + heap, "-Xss64m"]
+    jopts = ["-XX:+UseParallelGC", "-XX:ParallelGCThreads=4", "-Xmx" + heap, "-Xss64m"]
     if dfs:
         jopts += ["-Dtlc2.tool.queue.IStateQueue=StateDeque", "-Xss1g"]
     if java_opts:
@@ -122,6 +124,13 @@ def run_tlc(spec_dir, module, cfg, workers=8, simulate=None, depth=None, seed=No
                 on_replay(obj)
             if keep_replays:
                 res.replays.append(obj)
+            continue
+        mt = _RE_TAG.match(line)
+        if mt:
+            try:
+                res.tagged.setdefault(mt.group(1), []).append(json.loads(tla_unescape(line[1 + len(mt.group(1)):-1])))
+            except Exception as ex:
+                res.error = "bad tagged line: %s: %s" % (ex, line[:200])
             continue
         if line.startswith("Picked up JAVA_TOOL_OPTIONS"):
             continue
